@@ -62,7 +62,7 @@ def obligations(tier):
     eloops.update({"h_fprintf#2": 4, "h_fprintf#0": 30})
     for named in ([1, 0] if thorough else [1]):
         obs.append(Ob("out.expr" + ("" if named else ".anon"), "C10/out.c", defs=WDEFS + ["KIND=10", "H_NAMED=%d" % named], loops=eloops,
-                      unwindset=WREC, unwind=1, checks="functional", object_bits=12, timeout=900,
+                      unwindset=WREC, unwind=1, checks="memsafe", object_bits=12, timeout=900,
                       sample="MIR_output_item on an expr item referring to func f"))
     sloops = {"h_setup#7": 7, "scan_string#0": 17, "scan_string#1": 3, "MIR_output_str#0": 4, "h_fprintf#0": 6, "h_fprintf#1": 3,
               "h_fprintf#2": 2, "harness#0": 4, "harness#1": 4, "memcpy#0": 3, "memcpy#1": 5, "memcmp#0": 5, "memset#0": 5,
@@ -107,8 +107,6 @@ META = {
         "mir-htab.h replaced by the abstract-map model in CBMC mode (C19); constant hash; real headers in the native replay",
         "allocations (only interned strings such as \"blk1\" and scanned strings) are fixed 16-byte blocks; container growth asserted unreachable",
         "MIR_item objects live in an array of 65 items (CBMC 6.11 loses item->u.<member>->field on field-sensitive objects)",
-        "out.expr runs without CBMC's standard pointer checks (cbmc 6.11 aborts in fatal_assertions.cpp when one fails on this "
-        "harness); the misuse is caught by the harness assertions and, in the native replay, by AddressSanitizer",
     ],
 }
 
